@@ -620,8 +620,8 @@ theorem reverse_PND {s : Seg} (h : PND s) (mark : Nat → Bool) : PND (s.reverse
   · unfold Real at hj ⊢; rw [← (hf j).2.1]; exact hj
   · exact ⟨by rw [← (hf j).1]; exact hjp, (hf p).2.2⟩
 
-theorem runPassDir_PND (p : PassT) (c : Ctx) (fuel : Nat) (h : WF c.seg) (hF : Forest c.seg) (hP : PND c.seg) {c' : Ctx}
-    (e : runPassDir p c fuel = .ok (some c')) : PND c'.seg := by
+theorem runPassDir_PND (p : PassT) (c : Ctx) (fuel : Nat) (ar : Bool) (h : WF c.seg) (hF : Forest c.seg) (hP : PND c.seg) {c' : Ctx}
+    (e : runPassDir p c fuel ar = .ok (some c')) : PND c'.seg := by
   unfold runPassDir at e
   split at e
   · cases e; exact hP
@@ -637,50 +637,20 @@ theorem runPassDir_PND (p : PassT) (c : Ctx) (fuel : Nat) (h : WF c.seg) (hF : F
               (reverse_PND hP _) e
           · exact runPass_PND p c fuel h hF hP e
 
-theorem runRange_PND (passes : Array PassT) (c : Ctx) (lo hi fuel : Nat) (h : WF c.seg) (hF : Forest c.seg) (hP : PND c.seg) {c' : Ctx}
-    (e : runRange passes c lo hi fuel = .ok (some c')) : PND c'.seg := by
-  unfold runRange at e
-  simp only [] at e
-  revert e
-  have h0 : WF (c.beginRange (c.seg.numGlyphs * 64)).seg ∧ Forest (c.beginRange (c.seg.numGlyphs * 64)).seg ∧
-      PND (c.beginRange (c.seg.numGlyphs * 64)).seg := ⟨h, hF, hP⟩
-  revert h0
-  generalize (c.beginRange (c.seg.numGlyphs * 64)) = c0
-  generalize (List.range (hi - lo)) = ks
-  intro h0
-  have : ∀ (ks : List Nat) (acc : Except String (Option Ctx)), (∀ x, acc = .ok (some x) → WF x.seg ∧ Forest x.seg ∧ PND x.seg) →
-      ∀ x, ks.foldl (fun (acc : Except String (Option Ctx)) k =>
-        match acc with
-        | .ok (some c1) =>
-          (match runPassDir (passes.getD (lo + k) default) c1 fuel with
-           | .ok (some c2) => if c2.seg.numGlyphs > 0 ∧ c2.seg.numGlyphs > c.seg.numGlyphs * 64 then .ok none else .ok (some c2)
-           | o => o)
-        | o => o) acc = .ok (some x) → WF x.seg ∧ Forest x.seg ∧ PND x.seg := by
-    intro ks
-    induction ks with
-    | nil => intro acc ha x hx; exact ha x hx
-    | cons k rest ih =>
-      intro acc ha x hx
-      simp only [List.foldl_cons] at hx
-      refine ih _ ?_ x hx
-      intro y hy
-      split at hy
-      · rename_i c1
-        split at hy
-        · rename_i c2 hp
-          split at hy
-          · cases hy
-          · cases hy
-            have a := ha c1 rfl
-            exact ⟨runPassDir_spec _ c1 fuel a.1 hp, runPassDir_forest _ c1 fuel a.1 a.2.1 hp, runPassDir_PND _ c1 fuel a.1 a.2.1 a.2.2 hp⟩
-        · rename_i o hno
-          exact absurd hy (by
-            intro hh
-            exact hno y (by rw [hh]))
-      · rename_i o hno
-        exact absurd hy (fun hh => hno y hh)
-  intro e
-  exact (this ks (.ok (some c0)) (fun x hx => by cases hx; exact h0) c' e).2.2
+theorem runPhase_PND (passes : Array PassT) (bPass : Nat) (c : Ctx) (lo hi : Nat) (dobidi : Bool) (fuel : Nat) (h : WF c.seg) (hF : Forest c.seg) (hP : PND c.seg) {c' : Ctx}
+    (e : runPhase passes bPass c lo hi dobidi fuel = .ok (some c')) : PND c'.seg := by
+  refine (runPhase_ind (fun x => WF x.seg ∧ Forest x.seg ∧ PND x.seg) passes bPass lo hi dobidi fuel
+    (fun ar k _ _ c1 c2 h1 e1 => ⟨runPassDir_spec _ c1 fuel ar h1.1 e1, runPassDir_forest _ c1 fuel ar h1.1 h1.2.1 e1, runPassDir_PND _ c1 fuel ar h1.1 h1.2.1 h1.2.2 e1⟩)
+    (fun x l hx => hx) (fun x hx => ?_) c ⟨h, hF, hP⟩ e).2.2
+  refine ⟨bidiStep_wf hx.1, ?_, ?_⟩
+  · unfold bidiStep
+    split
+    · exact forest_congr (reverse_treeSame _ _) hx.2.1
+    · exact hx.2.1
+  · unfold bidiStep
+    split
+    · exact reverse_PND hx.2.2 _
+    · exact hx.2.2
 
 theorem pnd_of_allIso {s : Seg} (h : AllIso s) : PND s := fun j p _ hp => by rw [(h j).1] at hp; cases hp
 
@@ -737,9 +707,9 @@ theorem shape_PND (font : Font) (text : List Nat) (fuel : Nat) (dir : Nat) {c : 
       have hw0 := initSeg_wf font text dir
       have hf0 := initSeg_forest font text dir
       have hp0 := pnd_of_allIso (initSeg_allIso font text dir)
-      have w1 := runRange_spec _ _ _ _ _ hw0 h1
-      have f1 := runRange_forest _ _ _ _ _ hw0 hf0 h1
-      have p1 := runRange_PND _ _ _ _ _ hw0 hf0 hp0 h1
+      have w1 := runPhase_spec _ _ _ _ _ _ _ hw0 h1
+      have f1 := runPhase_forest _ _ _ _ _ _ _ hw0 hf0 h1
+      have p1 := runPhase_PND _ _ _ _ _ _ _ hw0 hf0 hp0 h1
       split at e
       · cases e
       · rename_i seg' ci' hre
@@ -752,7 +722,7 @@ theorem shape_PND (font : Font) (text : List Nat) (fuel : Nat) (dir : Nat) {c : 
         · rename_i c2 h2
           simp only [Except.ok.injEq, Option.some.injEq, Prod.mk.injEq] at e
           rw [← e.1]
-          exact runRange_PND _ _ _ _ _ w2 f2 p2 h2
+          exact runPhase_PND _ _ _ _ _ _ _ w2 f2 p2 h2
 
 /-- **C04: attachments stay inside the segment.** In every segment the modelled pipeline returns, a slot of the stream that
 is attached is attached to a slot of the stream. -/
